@@ -94,6 +94,11 @@ func runC02(tier string, seed uint64, o *Out) error {
 	if tier == "thorough" {
 		nidle = 12
 	}
+	nlate := 9
+	if tier == "thorough" {
+		nlate = 60
+	}
+	lateSQLCases(o, rng, nlate)
 	if err := idleCases(o, nidle); err != nil {
 		return err
 	}
